@@ -64,12 +64,12 @@ package http
 //@   havoc
 //@   flag typeassert=panic
 //@   requires trans != nil
-//@   modifies ghost.http_do, ghost.rpos[*], ghost.bufsrc[*], ghost.bufpos[*], ghost.bufn[*], ghost.dict_has[*], ghost.dict_int[*]
+//@   modifies ghost.http_do, ghost.http_ok, ghost.rpos[*], ghost.bufsrc[*], ghost.bufpos[*], ghost.bufn[*], ghost.dict_has[*], ghost.dict_int[*]
 //@   atcall NewReader [request_body_is_exactly_the_request] arr(arg0) == arr(request) && off(arg0) == off(request) && len(arg0) == len(request)
 //@   atcall NewRequestWithContext [the_call_carries_its_context] same(arg0, ctx)
 //@   atcall Do [request_sent_unmodified] same(request, old(request))
 //@   ensures [at_most_one_http_exchange] ghost.http_do <= old(ghost.http_do) + 1
 //@   ensures [success_only_after_an_exchange] result1 == nil ==> ghost.http_do == old(ghost.http_do) + 1
-//@   ensures [too_large_status_is_the_too_large_error] ghost.http_do == old(ghost.http_do) + 1 && resp != nil && resp.StatusCode == 413 ==> result1 == core.ErrRequestEntityTooLarge && result0 == nil
-//@   ensures [any_other_status_than_ok_is_an_error] ghost.http_do == old(ghost.http_do) + 1 && resp != nil && resp.StatusCode != 200 ==> result1 != nil && result0 == nil
+//@   ensures [too_large_status_is_the_too_large_error] ghost.http_do == old(ghost.http_do) + 1 && ghost.http_ok == 1 && resp.StatusCode == 413 ==> result1 == core.ErrRequestEntityTooLarge && result0 == nil
+//@   ensures [any_other_status_than_ok_is_an_error] ghost.http_do == old(ghost.http_do) + 1 && ghost.http_ok == 1 && resp.StatusCode != 200 ==> result1 != nil && result0 == nil
 //@   ensures [complete_body_or_error] result1 == nil && result0 != nil ==> off(result0) == 0 && ghost.bufn[arr(result0)] == len(result0)
